@@ -92,6 +92,13 @@ static void probe_file(const char *t) {
   } else
     P(",\"append\":%d", errno);
   P(",\"chmod\":%d", e(chmod(t, 0600)));
+  // once more after the chmod: the owner of a file needs no privilege to make it writable
+  fd = open(t, O_WRONLY | O_APPEND);
+  if (fd >= 0) {
+    P(",\"append2\":%d", e((int)write(fd, "+", 1)));
+    close(fd);
+  } else
+    P(",\"append2\":%d", errno);
   char buf[64];
   fd = open(t, O_RDONLY);
   int n = fd >= 0 ? (int)read(fd, buf, sizeof buf) : -1;
